@@ -12,8 +12,9 @@ For every modelled format and for ALL lists of lines (any content, any length):
 * `<fmt>_load_one` — composed with the proved funnel (`Props/C07.lean`): `iodata.api.load_one` returns the object
   or raises `LoadError` (carrying the reader's line number), the file is closed, the file system is unchanged.
 Generic: `ctor_shapes` (validators ⇒ consistent shapes, anything else is `TypeError` ⇒ `LoadError`),
-`reader_load_one` (any reader outcome through the funnel), `reader_load_many` (any sequence of reader outcomes as
-the frames of a generator-based `load_many`: `StopIteration` ⇒ `RuntimeError` (PEP 479) ⇒ `LoadError`).
+`reader_load_one` (any reader outcome through the funnel), `reader_load_many_partial` (any sequence of reader
+outcomes as the frames of a generator-based `load_many`: `StopIteration` ⇒ `RuntimeError` (PEP 479) ⇒ `LoadError`;
+partial: see there).
 -/
 import Iodata.Lemmas.C07Readers
 import Iodata.Props.C07
@@ -56,6 +57,24 @@ theorem reader_load_one (r : Rd.Out RObj) (n path : Nat) (fs : FS) :
   simp only at h
   subst h
   exact ⟨st', h1, apiOutcome_ok r, h2, h3⟩
+
+
+/-- **reader_load_many_partial** (frames of a generator-based `load_many`).  For ANY sequence of reader
+outcomes `rs` served as the frames of a format's `load_many` generator (each frame: its reads, then the reader's
+outcome — a `StopIteration` leaving the generator body becomes `RuntimeError` by PEP 479 — then the constructor),
+any way the generator ends, and a user who exhausts the iterator or discards it after `k` frames: the iteration
+ends normally or with `LoadError`, the file is closed, the file system unchanged.
+PARTIAL: the statement inherits the fourth alternative of `load_many_funnel` (a class that is not an `Exception`
+passes through); that the reader classes — all of them `Exception`s (`clsExc_isException`) — can never produce it
+is proved for `load_one` (`reader_load_one`) but not yet carried through the frame induction of `load_many`. -/
+theorem reader_load_many_partial (rs : List (Rd.Out RObj)) (n path : Nat) (fs : FS) (quota : Option Nat)
+    (iend : Option Exc) (hq : quota ≠ some 0) :
+    ∃ o st', runLoadMany loadMany
+        { nlines := n, items := rs.map itemOf, fmtIsGen := true, quota := quota, itemsEnd := iend } path fs = (o, st') ∧
+      st'.fs = fs ∧ (∃ evs, st'.trace = .close :: (evs ++ [.openR]) ∧ LoadEvs evs) ∧
+      (o = .normal ∨ o = .ret ∨ (∃ ln, o = .raised .load ln ∧ (ln = none ∨ ln = some (lineCount st'.trace)))
+        ∨ (∃ e, o = .raised e none ∧ e.isException = false)) :=
+  Iodata.Props.C07.load_many_funnel _ path fs rfl rfl hq
 
 /-- the object is returned exactly when the reader returned and the validators pass -/
 theorem reader_load_one_ret (r : Rd.Out RObj) :
